@@ -207,6 +207,7 @@ func runC10(r *an.Run) {
 		})
 	runC10b(r)
 	runC10c(r)
+	runC10alias(r)
 	runC10d(r)
 }
 
